@@ -285,6 +285,9 @@ func (uconn *UConn) RemoveSNIExtension() error {
 		return fmt.Errorf("cannot call RemoveSNIExtension on a UConn with a HelloGolang ClientHelloID")
 	}
 	uconn.omitSNIExtension = true
+	// The flag is only read when the preset is applied. A ClientHello that has
+	// already been built keeps its extension list, so drop the extension from it now.
+	uconn.removeSNIExtension()
 	return nil
 }
 
